@@ -70,6 +70,20 @@ Definition render_rewrite (s1 : sdocument) (d1 : document) (s2 : sdocument) (d2 
    "RULES " ++ (if negb rules_relevant then "n/a"
                 else if String.eqb (verdict_line "" o1) (verdict_line "" o2) then "same" else "DIFF")].
 
+(* Where the specification's algorithm is not defined the oracle gives no verdict: FieldsInSetCanMerge
+   needs the return types of the fields, which do not exist below an inline fragment whose type
+   condition names no type of the schema (C05_acyclic_partial carries the same hypothesis,
+   inline_conditions_known; C05_statement_refuted is the witness; graphql-js reports nothing there
+   either; KnownTypeNames rejects such documents). *)
+Definition oracle_scope (r : rule_id) (s : sdocument) (d : document) : bool :=
+  match r with
+  | R_OverlappingFieldsCanBeMerged =>
+      forallb (fun x => match x with
+                        | SInline _ (Some c) _ _ _ => match type_by_name s c with Some _ => true | None => false end
+                        | _ => true end) (doc_selections d)
+  | _ => true
+  end.
+
 Definition run_case (s : sdocument) (op : string) (args : list sexp) : list string :=
   if String.eqb op "trace" then
     match args with
@@ -91,7 +105,8 @@ Definition run_case (s : sdocument) (op : string) (args : list sexp) : list stri
                      (spec_section s
                         (List.app
                            (map (fun r => "V " ++ code_of r ++ " " ++
-                                          (if rule_in_scope r s d then (if violated r s d then "1" else "0") else "X"))
+                                          (if rule_in_scope r s d && oracle_scope r s d
+                                           then (if violated r s d then "1" else "0") else "X"))
                                 all_rules)
                            ["VALID " ++ (if spec_valid s d then "1" else "0")]))
         | _, _ => ["BADINPUT"]
